@@ -39,8 +39,20 @@ def run(ctx):
     muts = sorted({g.name for g in fb.all("lib") for _, t in g.calls() if (callee(t) or "").endswith("RefCell::borrow_mut")
                    and "HashMap<std::string::String" in " ".join(t.get("argtys", []))})
     ctx.inst("C03-set-in-place", "binding-table-mutators", muts)
-    extra = [m for m in muts if m.split("::{closure")[0] not in ("environment::LexicalScope::define", "environment::LexicalScope::set",
-                                                                 "environment::LexicalScope::get_mut")]
+    PRIMS = ("environment::LexicalScope::define", "environment::LexicalScope::set", "environment::LexicalScope::get_mut")
+    callers_of = fb.callers("lib")
+
+    def part_of_primitive(name, depth=3):
+        # one of the three primitives, or a private helper all of whose callers are (a function extracted from one of them)
+        name = name.split("::{closure")[0]
+        if name in PRIMS:
+            return True
+        g = fb.by_path(name)
+        if g is None or g.vis == "Public" or depth <= 0:
+            return False
+        cs = {c.split("::{closure")[0] for c in callers_of.get(name, ())} - {name}
+        return bool(cs) and all(part_of_primitive(c, depth - 1) for c in cs)
+    extra = [m for m in muts if not part_of_primitive(m)]
     if extra:
         ctx.report("C03-set-in-place", "mutators", "the binding table is borrowed mutably by %s (only define, set and get_mut "
                    "may)" % extra, None)
